@@ -466,6 +466,42 @@ static int wfreed[NW];
 static int wmig[NW];              /* pending migration target or -1 */
 static int wrevived[NW];
 
+/* The primary stream runs a user-defined round-robin scheduler: one unit from
+ * every pool per pass.  (BASIC always rescans from its first pool, so a primary
+ * ULT that yields -- e.g. inside the yield-based join of a tasklet -- would be
+ * popped again at once and units in the later pools would starve.) */
+static int rr_init(ABT_sched sched, ABT_sched_config config)
+{
+    (void)sched;
+    (void)config;
+    return ABT_SUCCESS;
+}
+static void rr_run(ABT_sched sched)
+{
+    ABT_pool pools[4];
+    int np = 0;
+    OK(ABT_sched_get_num_pools(sched, &np));
+    OK(ABT_sched_get_pools(sched, np, 0, pools));
+    for (;;) {
+        for (int p = 0; p < np; p++) {
+            ABT_thread t = ABT_THREAD_NULL;
+            OK(ABT_pool_pop_thread(pools[p], &t));
+            if (t != ABT_THREAD_NULL)
+                OK(ABT_self_schedule(t, ABT_POOL_NULL));
+        }
+        OK(ABT_xstream_check_events(sched));
+        ABT_bool stop = ABT_FALSE;
+        OK(ABT_sched_has_to_stop(sched, &stop));
+        if (stop == ABT_TRUE)
+            break;
+    }
+}
+static int rr_free(ABT_sched sched)
+{
+    (void)sched;
+    return ABT_SUCCESS;
+}
+
 static int pool_id(ABT_pool p)
 {
     for (int i = 0; i < NPOOL; i++)
@@ -580,7 +616,7 @@ static void scenario_seq(void)
     POOLS[PL] = UP[1].handle;
     OK(ABT_pool_create_basic(ABT_POOL_FIFO, ABT_POOL_ACCESS_MPMC, ABT_TRUE,
                              &POOLS[PB]));
-    /* primary stream: BASIC scheduler over [main, UA, UL, B] */
+    /* primary stream: round-robin scheduler over [main, UA, UL, B] */
     ABT_pool mainp, all[4];
     OK(ABT_pool_create_basic(ABT_POOL_FIFO, ABT_POOL_ACCESS_MPMC, ABT_TRUE, &mainp));
     all[0] = mainp;
@@ -588,8 +624,15 @@ static void scenario_seq(void)
     all[2] = POOLS[PL];
     all[3] = POOLS[PB];
     ABT_sched sched;
-    OK(ABT_sched_create_basic(ABT_SCHED_BASIC, 4, all, ABT_SCHED_CONFIG_NULL,
-                              &sched));
+    {
+        static ABT_sched_def def = { ABT_SCHED_TYPE_ULT, rr_init, rr_run, rr_free,
+                                     NULL };
+        ABT_sched_config cf;
+        OK(ABT_sched_config_create(&cf, ABT_sched_config_automatic, 1,
+                                   ABT_sched_config_var_end));
+        OK(ABT_sched_create(&def, 4, all, cf, &sched));
+        OK(ABT_sched_config_free(&cf));
+    }
     OK(ABT_xstream_set_main_sched(h_self_xstream(), sched));
     for (int i = 0; i < NW; i++)
         wmig[i] = -1;
@@ -721,7 +764,7 @@ static void scenario_seq(void)
             wfreed[w] = 1;
         }
     }
-    for (int round = 0; round < 8; round++) {
+    for (int round = 0; round < 12; round++) {
         int pending = 0;
         for (int w = 0; w < nw; w++)
             pending += wdone[w] < winc[w];
